@@ -53,7 +53,30 @@ class StmtMixin:
         if m is None:
             raise Unsupported("statement %s at line %s" % (type(node).__name__, node.lineno))
         self.note('node', type(node).__name__)
-        return m(node, st)
+        outs = m(node, st)
+        gc = self.cur[0].extra.get('ghost_code') if self.cur else None
+        if gc and not getattr(self, 'in_ghost', False):
+            text = ast.unparse(node).split('\n')[0]
+            stmts = gc.get(text)
+            if stmts:
+                # ghost statements attached to this statement by the sidecar (they may only assign ghost state G.*)
+                body = ast.parse('\n'.join(stmts)).body
+                self.note('rule', (node.lineno, text[:60], 'ghost code: ' + '; '.join(stmts)))
+                res = []
+                self.in_ghost = True
+                try:
+                    for s1, kind, val in outs:
+                        if kind != 'normal':
+                            res.append((s1, kind, val))
+                            continue
+                        for s2, k2, v2 in self.exec_block(body, s1):
+                            if k2 != 'normal':
+                                raise Unsupported("ghost code must not raise or return: %s" % text)
+                            res.append((s2, 'normal', None))
+                finally:
+                    self.in_ghost = False
+                return res
+        return outs
 
     def ok(self, st):
         return [(st, 'normal', None)]
@@ -513,6 +536,9 @@ class StmtMixin:
         key, spec = self.loop_spec(node)
 
         def with_iter(s, itv):
+            itrec = None
+            if isinstance(itv, VRef) and isinstance(s.heap[itv.rid], HRec) and s.heap[itv.rid].cls == 'iterator':
+                itrec = itv          # ``for x in iterator``: consumes the iterator (later next() calls continue after it)
             L = self.iter_to_list(itv, s)
             h = self.hlist(L, s)
             s.snapshot('pre' + key)
@@ -523,6 +549,8 @@ class StmtMixin:
             s.env['_it'] = L
             self.check_invs(s, key, spec, 'inv-init', node)
             mods = self.havoc_loop(node, s, spec)
+            if itrec is not None:
+                mods[2].add((itrec.rid, 'pos'))
             for n in ast.walk(node.target):
                 if isinstance(n, ast.Name):
                     mods[0].add(n.id)
@@ -539,6 +567,10 @@ class StmtMixin:
             else:
                 branches = self.branch(s, i < h.n, 'for@%s' % node.lineno)
             for s2, taken in branches:
+                if itrec is not None:
+                    rec = s2.heap[itrec.rid]
+                    s2.heap[itrec.rid] = HRec('iterator', {'list': rec.fields['list'],
+                                                           'pos': VInt(i + 1) if taken else VInt(h.n)})
                 if taken:
                     self.bind_for_target(node.target, from_z3(z3.Select(h.arr, i), h.et), s2)
                     for s3, kind, val in self.exec_block(node.body, s2):
@@ -578,6 +610,17 @@ class StmtMixin:
 
     def collect_mods(self, body, st, mods, depth=0):
         names, rids, fields, ghosts = mods
+        gc = self.cur[0].extra.get('ghost_code') if self.cur else None
+        if gc and depth == 0:
+            extra = []
+            for top in body:
+                for n in ast.walk(top):
+                    if isinstance(n, ast.stmt):
+                        g = gc.get(ast.unparse(n).split('\n')[0])
+                        if g:
+                            extra += ast.parse('\n'.join(g)).body
+            if extra:
+                self.collect_mods(extra, st, mods, depth + 1)
         for top in body:
             for n in ast.walk(top):
                 if isinstance(n, (ast.Assign, ast.AugAssign, ast.AnnAssign, ast.For, ast.NamedExpr, ast.Delete,
@@ -601,6 +644,10 @@ class StmtMixin:
                     names.add(n.name)
                 elif isinstance(n, ast.Call):
                     self.mod_call(n, st, mods, depth)
+                elif isinstance(n, (ast.Yield, ast.YieldFrom)):
+                    y = st.ghost.get('__yield__')
+                    if isinstance(y, VRef):
+                        rids.add(y.rid)
                 elif isinstance(n, ast.Attribute) and n.attr in MUTATORS:
                     base = self.resolve_static(n.value, st)      # e.g. ``store = unselected.append``
                     if isinstance(base, VRef):
@@ -621,6 +668,9 @@ class StmtMixin:
                 fields.add((base.rid, t.attr))
         elif isinstance(t, ast.Subscript):
             base = self.resolve_static(t.value, st)
+            if isinstance(base, tuple) and base[0] == 'ghost':
+                ghosts.add(base[1])
+                base = st.ghost.get(base[1])
             if isinstance(base, VRef):
                 rids.add(base.rid)
         elif isinstance(t, ast.Starred):
@@ -633,6 +683,10 @@ class StmtMixin:
             base = self.resolve_static(f.value, st)
             if isinstance(base, VRef):
                 rids.add(base.rid)
+        if isinstance(f, ast.Name) and f.id == 'next' and n.args:
+            it = self.resolve_static(n.args[0], st)
+            if isinstance(it, VRef) and isinstance(st.heap[it.rid], HRec):
+                fields.add((it.rid, 'pos'))
         text = ast.unparse(f)
         rule = self.find_rule(text)
         if isinstance(rule, dict) or (callable(rule) and hasattr(rule, 'modifies')):
@@ -704,6 +758,8 @@ class StmtMixin:
             expr = e
         if expr is not None:
             v = self.resolve_static(expr, st)
+            if isinstance(v, VOpt):
+                v = v.inner
             if isinstance(v, VRef):
                 rids.add(v.rid)
 
@@ -752,6 +808,8 @@ class StmtMixin:
         for g in sorted(ghosts):
             if g in st.ghost:
                 st.ghost[g] = self.havoc_val(st.ghost[g], 'G_' + g, st)
+                if isinstance(st.ghost[g], VRef):
+                    fresh_rids.add(st.ghost[g].rid)
         rids |= fresh_rids
         return (names, rids, fields, ghosts)
 
